@@ -283,6 +283,21 @@ def validity_problems(tc):
             P.append("migration time")
         if np.any(g.left < 0) or np.any(g.right > L) or np.any(g.left >= g.right):
             P.append("migration interval")
+    ix = tc.indexes
+    if ix.edge_insertion_order is not None and ix.edge_removal_order is not None:
+        E = e.num_rows
+        I, O = [int(x) for x in ix.edge_insertion_order], [int(x) for x in ix.edge_removal_order]
+        if len(I) != E or len(O) != E or any(not 0 <= x < E for x in I + O):
+            P.append("index entries out of range")
+        else:
+            if sorted(I) != list(range(E)):
+                P.append("insertion index is not a permutation of the edges")
+            if sorted(O) != list(range(E)):
+                P.append("removal index is not a permutation of the edges")
+            if any(e.left[a] > e.left[b] for a, b in zip(I, I[1:])):
+                P.append("insertion index not sorted by left")
+            if any(e.right[a] > e.right[b] for a, b in zip(O, O[1:])):
+                P.append("removal index not sorted by right")
     i = tc.individuals
     if i.num_rows and np.any((i.parents < -1) | (i.parents >= i.num_rows)):
         P.append("individual parents out of bounds")
@@ -526,6 +541,8 @@ def pick_env(rng, valid, k=None):
     """k: position of the case in its family: the read path and the presentation are cycled so that
     every seed covers eager and skip paths, single files and both stream positions."""
     api = "ts" if (valid and rng.random() < 0.5) else "tc"
+    if k is not None and valid:
+        api = "ts" if k % 2 == 0 else "tc"
     if k is None:
         r = rng.random()
         skip_tables, skip_ref = (r < 0.2), (0.15 < r < 0.35)
@@ -1018,6 +1035,15 @@ class Data(CorruptFamily):
             put(0, 1)
             put(n, vals[n] + 1)
             put(n, vals[n] - 1)
+        # index arrays: every entry replaced by OTHER in-range edge ids (successor, first, last entry's id)
+        for it in lay.p["items"]:
+            if it["key"].startswith(b"indexes/") and it["type"] == 4 and it["array_len"] >= 2:
+                a0, E = it["array_start"], it["array_len"]
+                vals = [int.from_bytes(base[a0 + 4 * j:a0 + 4 * j + 4], "little", signed=True) for j in range(E)]
+                for j in range(E):
+                    for v in {(vals[j] + 1) % E, vals[0], vals[-1], vals[(j + 1) % E]}:
+                        if v != vals[j]:
+                            eds.append([(a0 + 4 * j, int(v).to_bytes(4, "little", signed=True))])
         # sequence_length: special doubles (NaN, -NaN, +-inf, +-0, negative, denormal)
         for it in lay.p["items"]:
             if it["key"] == b"sequence_length" and it["array_len"] == 1:
